@@ -19,6 +19,8 @@ def model_cls(cls):
 def history_request(case):
     if case.get("op") != "history":
         return None
+    if case["cls"] == "schedstack":
+        return None  # stacked ScheduledDisposable layers: oracle only
     c = dict(case)
     c["cls"] = model_cls(case["cls"])
     if case["cls"] == "disposable":
